@@ -1031,6 +1031,20 @@ func (g *Gen) Block() error {
 			return err
 		}
 	}
+	// export / re-import at block boundaries (C12) only in the dedicated profile: after a
+	// re-import the chain continues from the imported state
+	if g.Profile == "genesis" && s.Halted == "" {
+		if g.chance(0.3) {
+			if err := g.line("export"); err != nil {
+				return err
+			}
+		}
+		if g.chance(0.06) {
+			if err := g.line("reimport"); err != nil {
+				return err
+			}
+		}
+	}
 	return nil
 }
 
